@@ -100,8 +100,23 @@ def locstr(loc):
     return s
 
 
+TEXT = {"dbl": "2 * {0}", "inc": "{0} + 1", "neg": "-{0}", "sum": "{0} + {1}", "mix": "{0} * {1} - 1", "rsub": "10 - {0}",
+        "div": "{0} / ({1} + 100)", "same": "{0}"}
+
+
+def labelstr(loc):
+    return locstr(loc)          # the container label is 'd': d['n']['x'], d['o'].p
+
+
+def load_pairs(entries):
+    """[(loc, template, sources)] -> the (target text, expression text) pairs Manager.load() takes"""
+    return [(labelstr(loc), TEXT[tn].format(*[labelstr(s_) for s_ in srcs])) for loc, tn, srcs in entries]
+
+
 def opstr(op):
     k = op[0]
+    if k == "load":
+        return f"load({load_pairs(op[1])!r}, overwrite={op[2]})"
     if k == "val":
         return f"{locstr(op[1])} = {op[2]!r}"
     if k == "expr" and op[2] in CTEMPLATES:
@@ -194,6 +209,13 @@ class Oracle:
                 # the location keeps the value it had; the definition is gone
                 set_raw(self.base, op[1], self.value(op[1]))
                 del self.defs[op[1]]
+        elif k == "load":
+            # entries are taken in order; with overwrite=False an entry whose target has a definition (also one added by an earlier
+            # entry of the same dump) is skipped, with overwrite=True it replaces it.  (load registers, it does not run the tasks.)
+            for loc, tn, srcs in op[1]:
+                if loc in self.defs and not op[2]:
+                    continue
+                self.defs[loc] = (tn, tuple(srcs))
         elif k == "iop":
             loc = op[1]
             if loc in self.defs:
@@ -314,6 +336,8 @@ class World:
             rf = self.ref(op[1])
             if rf in self.m.tasks:
                 self.m.unregister(rf)
+        elif k == "load":
+            self.m.load(load_pairs(op[1]), overwrite=op[2])
         elif k == "iop":
             # Python's  parent[key] OP= v  protocol: get, in-place operator, set
             tmp = self.ref(op[1])
@@ -353,6 +377,8 @@ def history_script(ops, tail=""):
             lines.append(f"if {rs(op[1])} in m.tasks: m.unregister({rs(op[1])})")
         elif k == "iop":
             lines.append(f"{rs(op[1])} {op[2]} {op[3]!r}")
+        elif k == "load":
+            lines.append(f"m.load({load_pairs(op[1])!r}, overwrite={op[2]})")
     return "\n".join(lines) + "\n" + tail
 
 
@@ -394,6 +420,15 @@ def legal(oracle, op):
     """acyclic data flow only (the statement of C01 excludes cyclic definitions)"""
     if op[0] == "expr":
         return not oracle.would_cycle(op[1], op[3])
+    if op[0] == "load":
+        o2 = copy.deepcopy(oracle)
+        for loc, tn, srcs in op[1]:
+            if loc in o2.defs and not op[2]:
+                continue
+            if o2.would_cycle(loc, srcs):
+                return False
+            o2.defs[loc] = (tn, tuple(srcs))
+        return True
     if op[0] == "val" and is_container(op[1]):
         # the statement of C01 excludes overwriting a container that holds an expression-defined member
         return not any(m in oracle.defs for m in members(oracle.base, op[1]))
